@@ -304,7 +304,7 @@ def step(st: B.St, ev: str) -> B.StepResult:
                 return res
             r = Z.db_reindex(zd, day, [str(zd / "a.zo")] if ev == "Rp" else [])
             if not Z.cli_ok(r):
-                if guards.get("z_broken") and ev == "R" and "has errors" in r.err:
+                if guards.get("z_broken") and ev == "R":
                     # a page is broken right now: the refusal is the specified behaviour;
                     # whatever was indexed before the refusal stays, and is judged at the
                     # next successful plain reindex
@@ -378,7 +378,7 @@ def make_inits(day: dt.date):
     apply_edit(p4, "add_page_c", g4)
     apply_edit(p4, "break_z", g4)
     r = Z.db_reindex(p4, day)
-    if Z.cli_ok(r) or "has errors" not in r.err:
+    if Z.cli_ok(r):
         raise H.HarnessError("initial refused reindex: expected a refusal, got " + repr((r.status, r.value, r.err[-300:])))
     s4 = B.St(path=str(p4), day=day, hist=[], guards=g4, extra={"init": "after-refused-reindex"})
     s4.key = H.digest([D.state_digest(p4, day), sorted(g4.items())])
